@@ -138,7 +138,7 @@ func (f *File) Render() (string, []Span) {
 
 // Commit is one step of the history.
 type Commit struct {
-	Actor   string           `json:"actor"` // "feature" | "base" | "rebase"
+	Actor   string           `json:"actor"` // "feature" | "base" | "rebase" | "merge"
 	Renames [][2]string      `json:"renames,omitempty"`
 	Set     map[string]*File `json:"set,omitempty"`
 	Delete  []string         `json:"delete,omitempty"`
@@ -234,6 +234,14 @@ func (r *Repo) Apply(c Commit) error {
 		r.clock = r.clock.Add(time.Minute)
 		_, err := r.Git("rebase", "-q", "main")
 		return err
+	case "merge":
+		// "Update branch": the base branch is merged into the branch under review
+		r.clock = r.clock.Add(time.Minute)
+		_, err := r.Git("merge", "-q", "--no-edit", "-m", c.Msg, "main")
+		if err != nil {
+			_, _ = r.Git("merge", "--abort")
+		}
+		return err
 	}
 	for _, rn := range c.Renames {
 		if err := os.MkdirAll(filepath.Dir(filepath.Join(r.Dir, rn[1])), 0o755); err != nil {
@@ -290,4 +298,125 @@ func (r *Repo) RunPintCI(pint, cfg string) ([]JSONReport, string, error) {
 		return nil, string(stderr), fmt.Errorf("unreadable report: %v: %q; pint exit: %v; pint said: %s", err, b, runErr, tail)
 	}
 	return reps, string(stderr), nil
+}
+
+// ParseRendered reads back a file in the shape Render produces (after git merged two such
+// files the text is no longer something the generator wrote). ok is false when the text is
+// not in that shape; the caller must then refuse to judge the scenario.
+func ParseRendered(text string) (f *File, ok bool) {
+	f = &File{}
+	lines := strings.Split(strings.TrimSuffix(text, "\n"), "\n")
+	if text == "" {
+		lines = nil
+	}
+	i := 0
+	for i < len(lines) && strings.HasPrefix(lines[i], "# pint file/") {
+		f.FileComments = append(f.FileComments, lines[i])
+		i++
+	}
+	ind := ""
+	if i+2 < len(lines) && lines[i] == "groups:" && lines[i+1] == "- name: g" && lines[i+2] == "  rules:" {
+		f.Strict = true
+		ind = "  "
+		i += 3
+	}
+	var cur *Rule
+	blanks := 0
+	var notes []string
+	section := ""
+	flush := func() {
+		if cur != nil {
+			f.Rules = append(f.Rules, *cur)
+			cur = nil
+		}
+	}
+	for ; i < len(lines); i++ {
+		l := lines[i]
+		if l == "" {
+			flush()
+			blanks++
+			continue
+		}
+		if !strings.HasPrefix(l, ind) {
+			return nil, false
+		}
+		l = l[len(ind):]
+		switch {
+		case l == "- alert: [unterminated":
+			flush()
+			if i+1 >= len(lines) {
+				return nil, false
+			}
+			i++
+			f.Broken = true
+		case strings.HasPrefix(l, "- alert: ") || strings.HasPrefix(l, "- record: "):
+			flush()
+			cur = &Rule{Blanks: blanks, Notes: notes}
+			blanks, notes, section = 0, nil, ""
+			if strings.HasPrefix(l, "- alert: ") {
+				cur.Kind, cur.Name = "alert", strings.TrimPrefix(l, "- alert: ")
+			} else {
+				cur.Kind, cur.Name = "record", strings.TrimPrefix(l, "- record: ")
+			}
+		case strings.HasPrefix(l, "# "):
+			flush()
+			notes = append(notes, l)
+		case cur == nil:
+			return nil, false
+		case strings.HasPrefix(l, "  # "):
+			cur.Comments = append(cur.Comments, strings.TrimPrefix(l, "  "))
+		case strings.HasPrefix(l, "  expr: "):
+			cur.Expr = strings.TrimPrefix(l, "  expr: ")
+		case strings.HasPrefix(l, "  for: "):
+			cur.For = strings.TrimPrefix(l, "  for: ")
+		case l == "  labels:":
+			section = "labels"
+		case l == "  annotations:":
+			section = "annotations"
+		case strings.HasPrefix(l, "    ") && section != "":
+			kv := strings.SplitN(strings.TrimPrefix(l, "    "), ": ", 2)
+			if len(kv) != 2 {
+				return nil, false
+			}
+			if section == "labels" {
+				cur.Labels = append(cur.Labels, [2]string{kv[0], kv[1]})
+			} else {
+				cur.Annotations = append(cur.Annotations, [2]string{kv[0], kv[1]})
+			}
+		default:
+			return nil, false
+		}
+	}
+	flush()
+	if blanks > 0 || len(notes) > 0 {
+		return nil, false // trailing decoration belongs to no rule: not something Render writes
+	}
+	if back, _ := f.Render(); back != text {
+		return nil, false
+	}
+	return f, true
+}
+
+// ReadTree parses every rule file of a revision back into the model.
+func (r *Repo) ReadTree(rev string) (Tree, bool) {
+	out, err := r.Git("ls-tree", "-r", "--name-only", rev)
+	if err != nil {
+		return nil, false
+	}
+	t := Tree{}
+	for _, p := range strings.Split(strings.TrimSpace(out), "\n") {
+		if p == "" || !strings.HasSuffix(p, ".yml") {
+			continue
+		}
+		txt, err := r.Git("show", rev+":"+p)
+		if err != nil {
+			return nil, false
+		}
+		f, ok := ParseRendered(txt)
+		if !ok {
+			return nil, false
+		}
+		t[p] = f
+	}
+	return t, true
 }
